@@ -792,8 +792,155 @@ def _recursion(P, R, reach):
         else:
             for (a_, b_), (f, c) in rest_sites.items():
                 R.hold("b", "call %s -> %s lies on no cycle without a progress edge" % (a_.split("::")[-1], b_.split("::")[-1]), fn=f, line=c.line)
-        if not guarded:
-            R.note("b: recursion cycle {%s} has no explicit depth guard; its depth is bounded by the input's nesting (<= 4 KiB)" % ", ".join(n.split("::")[-1] for n in names))
+        _stack_need(P, R, names)
+
+
+INPUT_MAX = 4096                 # the property's input bound (4 KiB); one recursion level consumes at least one byte
+STACK_BUDGET = 1 << 20           # half of the 2 MiB stack of a spawned Rust thread / test-harness thread
+REVIEWED_DEPTH = {
+    # cycle (sorted short names) -> (depth bound, reason)
+    ("parse_array_literal", "parse_value"): (33, "each level needs a value that both starts with '[' and ends with ']': depth = balanced bracket nesting, which the property bounds by 32"),
+}
+
+
+def _depth_guard(P, names):
+    """A recognised depth guard: in a function every cycle of the SCC passes through, a comparison of a depth counter with a
+    constant whose failing edge returns without recursing. Returns (bound, fn, line) or None."""
+    import re as _re
+    scc = set(names)
+    for name in names:
+        f = P.fns[name]
+        for b in sorted(f.normal_blocks()):
+            if f.term(b)[2] != "switch" or not A.bool_edges(f, b):
+                continue
+            a, v = A.norm_bool_named(f.sym_switch(b), True)
+            m = _re.match(r"^(\d+)\S* < (.*)$", a) or _re.match(r"^(.*) < (\d+)\S*$", a)
+            if not m:
+                continue
+            g1, g2 = m.group(1), m.group(2)
+            const, var, const_left = (int(g1), g2, True) if g1.isdigit() else (int(g2), g1, False)
+            if not any(k in var.lower() for k in ("depth", "level", "nesting")):
+                continue
+            fe, te = A.bool_edges(f, b)
+            # edge taken when the counter exceeds the bound
+            over = (te if v else fe) if const_left else (fe if v else te)
+            rec_blocks = [c.bb for c in f.calls() if c.resolved in scc and c.bb in f.normal_blocks()]
+            if any(rb in f.reach(over) for rb in rec_blocks):
+                continue
+            # every recursive call of this function lies behind the guard's other edge
+            if not all(rb not in f.reach(0, avoid_blocks=[b]) for rb in rec_blocks):
+                continue
+            # every cycle passes this function
+            from rules.C19 import _cycle
+            cg = P.callgraph()
+            rest = {n: set(x for x in cg.get(n, ()) if x in scc and x != name) for n in names if n != name}
+            if _cycle(rest):
+                continue
+            if not _counter_counts(P, names, f, b, const_left):
+                continue
+            bound = const + 1
+            return bound, f, f.term(b)[0]
+    return None
+
+
+def _counter_counts(P, names, g, gb, const_left):
+    """The guarded counter really counts recursion levels: it grows by >= 1 on every cycle and is never reset inside the SCC."""
+    from rules.C19 import _cycle
+    scc = set(names)
+    sw = strip(g.sym_switch(gb))
+    cc = A.canon_cmp(sw)
+    if cc is None:
+        return False
+    var = cc[2] if strip(cc[1])[0] == "const" else cc[1]
+    var = strip(var)
+    if var[0] == "param":
+        D = {(g.name, var[1])}
+        inc_edges = set()
+        changed = True
+        while changed:
+            changed = False
+            for name in names:
+                f = P.fns[name]
+                for c in f.calls():
+                    if c.bb not in f.normal_blocks() or c.resolved not in scc:
+                        continue
+                    for (h, q) in list(D):
+                        if c.resolved != h or q - 1 >= len(c.args):
+                            continue
+                        a = f.sym_operand(c.args[q - 1])
+                        inc = A.increment_of(a)
+                        base, k = (strip(inc[0]), inc[1]) if inc else (strip(a), 0)
+                        if base[0] != "param" or k < 0:
+                            return False            # a constant or unrelated value resets the counter inside the cycle
+                        if (name, base[1]) not in D:
+                            D.add((name, base[1])); changed = True
+                        if k >= 1:
+                            inc_edges.add((name, h))
+        # every SCC function on a cycle must carry the counter, and every cycle has an incrementing edge
+        cg = P.callgraph()
+        rest = {n: set(x for x in cg.get(n, ()) if x in scc and (n, x) not in inc_edges) for n in names}
+        if _cycle(rest):
+            return False
+        for name in names:
+            f = P.fns[name]
+            for c in f.calls():
+                if c.bb in f.normal_blocks() and c.resolved in scc and not any(h == c.resolved for (h, q) in D):
+                    return False
+        return True
+    if var[0] == "field":
+        fld, owner = var[2], var[3]
+        ok_inc = False
+        for name in names:
+            f = P.fns[name]
+            for (bb, j, st) in A.stores_to_field(f, fld, owner):
+                if j < 0:
+                    return False
+                v = f.sym_rvalue(st[4])
+                inc = A.increment_of(v)
+                sv = strip(inc[0]) if inc else strip(v)
+                if not (sv[0] == "field" and sv[2] == fld):
+                    return False                    # the counter is overwritten with something that is not its own value (+k)
+                if inc and inc[1] >= 1:
+                    ok_inc = True
+        if not ok_inc:
+            return False
+        # every recursive call in the guard function is dominated by an increment
+        incs = [bb for (bb, j, st) in A.stores_to_field(g, fld, owner) if A.increment_of(g.sym_rvalue(st[4])) and A.increment_of(g.sym_rvalue(st[4]))[1] >= 1]
+        for c in g.calls():
+            if c.bb in g.normal_blocks() and c.resolved in scc and not any(g.dominates(ib, c.bb) for ib in incs):
+                return False
+        return True
+    return False
+
+
+def _stack_need(P, R, names):
+    from sa import stacksizes
+    short = tuple(sorted(n.split("::")[-1] for n in names))
+    try:
+        sizes = stacksizes.load()
+    except Broken as e:
+        R.undecide("b", "stack:%s" % ",".join(short), "frame sizes unavailable: %s" % e)
+        return
+    missing = [n for n in names if n not in sizes]
+    if missing:
+        R.undecide("b", "stack:%s" % ",".join(short), "no frame size for %s" % missing)
+        return
+    frames = sum(sizes[n] for n in names)
+    g = _depth_guard(P, names)
+    if g:
+        depth, why = g[0], "depth guard `<= %d` in %s (line %d)" % (g[0] - 1, g[1].short_name, g[2])
+    elif short in REVIEWED_DEPTH:
+        depth, why = REVIEWED_DEPTH[short][0], "reviewed: " + REVIEWED_DEPTH[short][1]
+    else:
+        depth, why = INPUT_MAX, "no depth guard: one level per input byte, input up to %d bytes" % INPUT_MAX
+    need = depth * frames
+    detail = "frames %s = %d B per level (dev profile), depth <= %d (%s), need %d KiB of a %d KiB budget" % (
+        {n.split("::")[-1]: sizes[n] for n in names}, frames, depth, why, need // 1024, STACK_BUDGET // 1024)
+    if need <= STACK_BUDGET:
+        R.hold("b", "recursion cycle {%s} fits the stack budget" % ", ".join(short), detail, P.fns[names[0]])
+    else:
+        R.violate("b", "stack-depth:%s" % ",".join(short),
+                  "recursion cycle {%s} can exhaust the stack: %s. A chain of prefix operators / opening brackets / binary operators as long as the input drives one level per byte" % (", ".join(short), detail), P.fns[names[0]])
 
 
 def _consumes_cursor(P, f, c):
